@@ -44,12 +44,24 @@ def concurrent(ctx, v, n):
             return dict(status="died", scenarios=0, tlc_states=r1["distinct"]), r1
         raise vlib.Infra("muxconc driver failed: " + p.stderr[-2000:])
     scen = vlib.read_ndjson(tpath)
-    conf = vlib.impl_conformance(ctx, "MuxImplTrace", MC_CFG.replace("Locked = TRUE", "Locked = FALSE"), scen, MC_FIELDS, "mc")
-    strict = vlib.impl_conformance(ctx, "MuxImplTrace", MC_CFG, scen[:200], MC_FIELDS, "mcs")
+    # batches of 150 histories: a single run over 1200 kept TLC's state queue on disk and failed there twice in
+    # background snapshots ("when writing the disk"); small runs stay in memory
+    conf = dict(status="conforms", scenarios=0, tlc_states=0, drift=[])
+    for b0 in range(0, len(scen), 150):
+        r = vlib.impl_conformance(ctx, "MuxImplTrace", MC_CFG.replace("Locked = TRUE", "Locked = FALSE"), scen[b0:b0 + 150], MC_FIELDS, "mc%d" % (b0 // 150))
+        if r["status"] == "inconclusive":
+            r = vlib.impl_conformance(ctx, "MuxImplTrace", MC_CFG.replace("Locked = TRUE", "Locked = FALSE"), scen[b0:b0 + 150], MC_FIELDS, "mcr%d" % (b0 // 150))
+        if r["status"] == "inconclusive":
+            conf = r
+            break
+        conf["scenarios"] += r["scenarios"]
+        conf["tlc_states"] += r.get("tlc_states", 0)
+        conf["drift"] += r.get("drift", [])
+    if conf["status"] != "inconclusive" and conf["drift"]:
+        conf["status"] = "drift"
+    strict = vlib.impl_conformance(ctx, "MuxImplTrace", MC_CFG, scen[:150], MC_FIELDS, "mcs")
     conf["inductive_invariant"] = ind
     conf["lock_discipline"] = dict(status=strict["status"], drift=strict.get("drift", [])[:2])
-    if conf["status"] == "inconclusive":   # (seen once: TLC failed to spill its state queue to disk) one more try
-        conf = vlib.impl_conformance(ctx, "MuxImplTrace", MC_CFG.replace("Locked = TRUE", "Locked = FALSE"), scen, MC_FIELDS, "mc2")
     if conf["status"] == "inconclusive":
         raise vlib.Infra("MuxImplTrace validation inconclusive: %s" % conf.get("detail"))
     for dr in conf["drift"]:
